@@ -8,7 +8,7 @@ From Coq Require Import ZArith List Bool Arith Lia.
 From SP Require Import Base.Sat Base.Bits Core.CnfModel Core.Card Core.CnfProofs Core.CardProofs.
 From SP Require Import Design.Flat Design.Layout Design.Sem.
 From SP Require Import Encode.Compile Encode.CodeSem Encode.Generic Encode.Blocks Encode.Runs
-     Encode.GridLemmas Encode.CrossChunks Encode.LayoutF1 Encode.F1Kinds Encode.F1Cross Encode.F1Deriv Encode.F1DerivC Encode.F1Sem Encode.F1Sustain
+     Encode.GridLemmas Encode.CrossChunks Encode.LayoutF1 Encode.F1Kinds Encode.F1Cross Encode.F1Deriv Encode.F1DerivC Encode.F1Sem Encode.F1Sustain Encode.F1Latin
      Encode.F1InARow Encode.F1Sequential Encode.CompileProofs Encode.CompileCorollaries.
 From SP Require Sample.Decode Sample.DecodeProofs Design.LayoutWf Sample.DecodeWf.
 Import ListNotations.
@@ -105,6 +105,7 @@ Proof.
     destruct (pin_guard fb HF1 HT _ _ _ _ Hc) as (Hf & Hl & _ & ps & Ep & Hpb).
     unfold apply_pin. rewrite Ep. destruct ps as [|p ps']; [eexists; reflexivity|].
     rewrite (pin_cmapM fb HF1 HT f l (p :: ps') Hf Hl). cbn [cbind]. eexists. reflexivity.
+  - (* LatinSquare *) exact (latin_total fb HF1 HT _ fresh Hc).
   - (* Sequential *) exact (sequential_total fb HF1 HT _ fresh Hc).
 Qed.
 
